@@ -642,3 +642,55 @@ func normEachAll(xs []string) []string {
 	}
 	return out
 }
+
+// sumAddends flattens a rendered sum "((a + b) + c)" into its sorted addends.
+func sumAddends(s string) []string {
+	s = strings.TrimSpace(s)
+	if len(s) > 2 && s[0] == '(' && matchParen(s, 0) == len(s)-1 {
+		inner := s[1 : len(s)-1]
+		if k := topLevelIndex(inner, " + "); k > 0 {
+			out := append(sumAddends(inner[:k]), sumAddends(inner[k+3:])...)
+			sort.Strings(out)
+			return out
+		}
+	}
+	return []string{s}
+}
+
+// sigmaTerms: the per-iteration terms of accumulations that are added up to
+// one total, whatever the number of accumulators: Σ(Σ(0; A); B), (Σ(0; A) + Σ(0; B)),
+// Σ(0; A) + Σ(0; B) in either order. Each term is returned as its sorted addends joined by " + ".
+func sigmaTerms(s string) ([]string, bool) {
+	s = strings.TrimSpace(s)
+	for _, conv := range []string{"u64(", "u32(", "int(", "i64("} {
+		if strings.HasPrefix(s, conv) && matchParen(s, len(conv)-1) == len(s)-1 {
+			return sigmaTerms(s[len(conv) : len(s)-1])
+		}
+	}
+	if s == "0" {
+		return nil, true
+	}
+	if strings.HasPrefix(s, "Σ(") && matchParen(s, len("Σ")) == len(s)-1 {
+		inner := s[len("Σ(") : len(s)-1]
+		k := topLevelIndex(inner, "; ")
+		if k < 0 {
+			return nil, false
+		}
+		base, ok := sigmaTerms(inner[:k])
+		if !ok {
+			return nil, false
+		}
+		return append(base, strings.Join(sumAddends(inner[k+2:]), " + ")), true
+	}
+	if len(s) > 2 && s[0] == '(' && matchParen(s, 0) == len(s)-1 {
+		inner := s[1 : len(s)-1]
+		if k := topLevelIndex(inner, " + "); k > 0 {
+			a, ok1 := sigmaTerms(inner[:k])
+			b, ok2 := sigmaTerms(inner[k+3:])
+			if ok1 && ok2 {
+				return append(a, b...), true
+			}
+		}
+	}
+	return nil, false
+}
